@@ -404,10 +404,13 @@ static int wake_some(int kind, const void *obj, int n)
 void vs_set_unit_fn(const void *(*fn)(void)) { unit_fn = fn; }
 void vs_autoname_units(int on) { autoname_units = on; }
 void vs_set_event_fn(void (*fn)(int, const void *, const void *, long)) { event_fn = fn; }
+static void (*atomic_fn)(int, int, const volatile void *, uint64_t, uint64_t);
+void vs_set_atomic_fn(void (*fn)(int, int, const volatile void *, uint64_t, uint64_t)) { atomic_fn = fn; }
 double vs_now(void) { return vclock; }
 uint64_t vs_rand(void) { return xs(&rng_u); }
 uint64_t vs_steps(void) { return steps; }
 int vs_tid(void) { return me ? me->id : -1; }
+int vs_thread_alive(int tid) { return tid >= 0 && tid < nthreads && T[tid].st != ST_DEAD && T[tid].st != ST_UNUSED; }
 int vs_failed(void) { return nfail; }
 const char *vs_first_failure(void) { return first_failure; }
 
@@ -577,6 +580,8 @@ void abt_verif_atomic(int kind, int width, const volatile void *addr, uint64_t a
                 wake(&T[i]);
         UNLOCK();
     }
+    if (atomic_fn) /* scenario hook: runs while this thread holds the token, right before the op executes (may vs_name) */
+        atomic_fn(kind, width, addr, a, b);
     if (!logf)
         return;
     nm *e = lookup((const void *)addr);
